@@ -56,6 +56,13 @@ def check_result(res, predicted, source, emit, case, tp_format="vtl", rop=True):
             mech = "shape/" + probs[0][0]
             if probs[0][0] == "null-in-non-nullable" and name.startswith("DS_nvl"):
                 mech += "/nvl-with-nullable-replacement"        # results named DS_nvl* come from the nvl statements of the type-mix workload
+            if source == "gen:viral-chain" and probs[0][0] == "column-order-or-set" and isinstance(obj, Dataset) and obj.data is not None:
+                missing = sorted(set(obj.components) - set(obj.data.columns))
+                extra = sorted(set(obj.data.columns) - set(obj.components))
+                mech += "/viral-chain/" + ("missing:" + "+".join(missing) if missing else "extra:" + "+".join(extra) if extra else "order")
+            if source == "gen:validation" and probs[0][0] == "null-in-non-nullable":
+                # every statement of the validation workload has its own result name (V1 .. V11)
+                mech += "/validation:" + {"V10": "lag-over-non-nullable-measure", "V11": "ungrouped-aggr"}.get(name, name)
             emit({"v": "viol", "b": bucket, "mech": mech, "what": f"[{source} {cid}] " + "; ".join(p[1] for p in probs[:3]),
                   "case": case})
         else:
